@@ -2,6 +2,7 @@
   C02 — Recovery never fabricates, corrupts or half-applies log content.
   (byte level, L1; the WAL level is carried by the crash suite's ghost-state monitors, see DESIGN §6)
 -/
+import RaftWal.Proofs.SegmentChainFault
 import RaftWal.Proofs.SegmentTorn
 import RaftWal.Proofs.SegmentChain
 import RaftWal.Proofs.SegmentChainRec
@@ -177,5 +178,34 @@ theorem recovered_log_before_or_after (d : Crash.Disk) (hq : Crash.QuiescentS d)
     (ho : Crash.openResult d1 = some d') :
     Crash.absLog d' = Crash.absLog d ∨ Crash.absLog d' = Crash.specApply (Crash.absLog d) op :=
   (Crash.crash_safe_corrected d hq op hok k c d1 d' hr ho).2.1
+
+/-! ### chains with I/O faults: failed appends, whose bytes stay behind the tail (observation O21, a recorded finding)
+
+    `ChainEvF` adds `failed b fault` to the chain events: an append that fails on an injected write or fsync fault — the
+    call returns an error, the writer is rolled back in memory, the file keeps what landed. `chain_atomic_faults_stmt` says
+    of such chains what `chain_atomic` says of fault-free ones (every acknowledged batch present, anything else present is
+    one whole submitted batch — the pending failed one included, as C10 allows —, nothing partial, nothing fabricated,
+    modulo CRC-32C collisions). It is FALSE of the model, and of the code: -/
+
+/-- the witness, evaluated by the kernel: an acknowledged append, an append whose fsync fails and whose single payload
+    embeds an entry frame `[42]` and a commit frame with that frame's CRC-32C, a shorter acknowledged append, a restart —
+    three entries are recovered and index 7 reads `[42]`, which nobody stored. No CRC collision is involved. The same
+    input is replayed on the real code by the segment suite on every run (known finding O21). -/
+theorem failed_append_stale_bytes_fabricate_an_entry : type_of% RaftWal.faultW3_outcome :=
+  -- the statement (Proofs/SegmentChainFault.lean): `chainRunF faultInfo (freshSegment faultInfo) faultW3` is `.ok p` with
+  -- `p.1.offsets.length = 3` and `p.1.getLog p.2 7 64 = .ok [42]`
+  RaftWal.faultW3_outcome
+
+theorem chain_atomic_with_faults_refuted : ¬ chain_atomic_faults_stmt := RaftWal.chain_atomic_faults_false
+
+/-- what does hold (**partial**: fsync faults only, each failed append followed directly by a restart; `.write n` faults
+    and appends over the stale bytes of a failed one are exactly where the refutation lives): such a chain behaves as the
+    fault-free chain in which the failed batch was appended, and ends with a clean region behind the tail -/
+theorem chain_atomic_faults_partial (info : SegInfo) (evs : List ChainEvF) (l : List ChainEv)
+    (hp : plainOf evs = some l) (hwf : ChainWFF info evs) :
+    ChainCollision info l
+    ∨ ∃ w file bs, FaultResult info evs w file bs ∧ ChainResult info l w file bs
+        ∧ (∀ x ∈ file.drop w.writeOffset, x = 0) :=
+  RaftWal.chain_atomic_faults_partial info evs l hp hwf
 
 end RaftWal.C02
